@@ -43,7 +43,12 @@ SampleEv == /\ Here /\ Ev.e = "S"
 QuietEv == /\ Here /\ Ev.e = "Q"
            /\ pool = <<>> /\ srv = <<>> /\ \A f \in Flows : cnt[f] = Ev.cnt[f] /\ byt[f] = Ev.byt[f]
            /\ UNCHANGED svars /\ Consume
-SilentStep == Silent /\ Keep
+\* C13 reads "waiting at that instant" in simulated time: a packet whose arrival at this instant was scheduled before
+\* the instant began (a timer set earlier) is waiting at this instant for every choice SP makes at this instant.  Only
+\* arrivals created inside the instant by zero-delay hops (sch = 0) may come after a choice of the same instant.
+NoScheduledArrivalAhead == \A j \in l..Len(Tr) : (Tr[j].e = "A" /\ Tr[j].t = now) => Tr[j].sch = 0
+SilentStep == /\ Silent /\ Keep
+              /\ (cfg.policy = "SP" /\ srv = <<>> /\ srv' # <<>>) => NoScheduledArrivalAhead
 \* a scheduler without next hop: its departures are not seen at a tap
 HiddenDepart == Traces[tid].noout = 1 /\ Depart /\ Keep
 \* ... and the clock has to stop at the end of each transmission although no event is logged there
